@@ -53,12 +53,16 @@ class Agg:
 
 
 class IntV:
-    __slots__ = ('t', 'bits', 'norm')
+    # lz: number of low bits known to be zero (value is a multiple of 2^lz); ub: value known to be < 2^ub.
+    # Only used to turn `or` of disjoint bit ranges (clang packs two 32-bit coordinates into one register) into `add`.
+    __slots__ = ('t', 'bits', 'norm', 'lz', 'ub')
 
-    def __init__(s, t, bits, norm=False):
+    def __init__(s, t, bits, norm=False, lz=0, ub=None):
         s.t = t
         s.bits = bits
         s.norm = norm
+        s.lz = lz
+        s.ub = bits if ub is None else ub
 
     def __repr__(s):
         return f'i{s.bits}<{s.t}>'
@@ -567,7 +571,17 @@ class Ints:
             r = {'add': lambda: x + y, 'sub': lambda: x - y, 'mul': lambda: x * y}[op]()
             return s.mk(r, bits)
         if op == 'shl' and isinstance(b, int):
-            return s.mk(s.raw(a) * (1 << b), bits) if b < bits else 0
+            if b >= bits: return 0
+            r = s.mk(s.raw(a) * (1 << b), bits)
+            if isinstance(r, IntV): r.lz = b + (a.lz if isinstance(a, IntV) else 0)
+            return r
+        if op == 'or':
+            # disjoint bit ranges: x*2^k | y with y < 2^k  ==  x*2^k + y
+            for x, y in ((a, b), (b, a)):
+                lzx = x.lz if isinstance(x, IntV) else ((x & -x).bit_length() - 1 if x else 64)
+                uby = (y.ub if (y.norm or isinstance(y.t, int)) else bits) if isinstance(y, IntV) else y.bit_length()
+                if lzx >= uby:
+                    return s.mk(s.raw(x) + s.raw(y), bits)
         ua, ub = s.U(st, a), s.U(st, b)
         if op == 'lshr' and isinstance(ub, int):
             return s.mk(ua / (1 << ub), bits, True) if ub < bits else 0
@@ -575,9 +589,13 @@ class Ints:
             sa = s.S(st, a)
             return s.mk(sa / (1 << ub), bits)   # z3 Int div is floor for positive divisor
         if op == 'and' and isinstance(ub, int) and (ub & (ub + 1)) == 0:
-            return s.mk(ua % (ub + 1), bits, True)
+            r = s.mk(ua % (ub + 1), bits, True)
+            if isinstance(r, IntV): r.ub = ub.bit_length()
+            return r
         if op == 'and' and isinstance(ua, int) and (ua & (ua + 1)) == 0:
-            return s.mk(ub % (ua + 1), bits, True)
+            r = s.mk(ub % (ua + 1), bits, True)
+            if isinstance(r, IntV): r.ub = ua.bit_length()
+            return r
         if op == 'and' and isinstance(ub, int) and ub & (ub - 1) == 0:
             k = ub.bit_length() - 1
             return s.mk(((ua / (1 << k)) % 2) * ub, bits, True)
@@ -609,7 +627,7 @@ class Ints:
 
     def zext(s, st, v, fb, nb):
         if isinstance(v, int): return v
-        return IntV(s.U(st, v), nb, True)
+        return IntV(s.U(st, v), nb, True, ub=fb)
 
     def sext(s, st, v, fb, nb):
         if isinstance(v, int): return sgn(v, fb) & MASK(nb)
